@@ -288,7 +288,7 @@ func (e *Engine) inlinable(fn *ssa.Function) bool {
 		}
 	}
 	if strings.HasPrefix(pp, "google.golang.org/protobuf/types/known/") {
-		if strings.HasPrefix(fn.Name(), "Get") || fn.Name() == "AsDuration" || (fn.Name() == "New" && (strings.HasSuffix(pp, "durationpb") || strings.HasSuffix(pp, "timestamppb"))) {
+		if strings.HasPrefix(fn.Name(), "Get") || fn.Name() == "AsDuration" || ((fn.Name() == "New" || fn.Name() == "Now") && (strings.HasSuffix(pp, "durationpb") || strings.HasSuffix(pp, "timestamppb"))) {
 			return true
 		}
 	}
